@@ -177,6 +177,7 @@ type c19Step struct {
 	Bind   string `json:"bind,omitempty"` // sso: redirect | post
 	Ms     int64  `json:"ms,omitempty"`   // advance; -1: to the expiry of slot, -2: 1 ms before, -3: 1 ms after
 	Bad    bool   `json:"bad,omitempty"`  // put_service with a body that is not SP metadata
+	Omit   string `json:"omit,omitempty"` // put_user: attributes left out of the body ("groups" | "names" | "groups+names"): PUT replaces the record
 }
 
 var c19Users = []string{"u0", "u1", "u2"}
@@ -221,7 +222,7 @@ func genC19(g *Rng, tier string) *Plan {
 			case apiPw && g.Bool(0.5):
 				st = c19Step{Op: "put_user", User: Pick(g, c19Users...), Pw: Pick(g, "set", "empty"), Ver: ver}
 			case g.Bool(0.5):
-				st = c19Step{Op: "put_user", User: Pick(g, c19Users...), Pw: "", Ver: ver} // no password field: stored hash is retained
+				st = c19Step{Op: "put_user", User: Pick(g, c19Users...), Pw: "", Ver: ver, Omit: Pick(g, "", "", "groups", "names", "groups+names")} // no password field: stored hash is retained
 			default:
 				st = c19Step{Op: "seed_user", User: Pick(g, c19Users...), Pw: Pick(g, "set", "set", "none", "empty"), Ver: ver}
 			}
@@ -273,6 +274,15 @@ func genC19(g *Rng, tier string) *Plan {
 				steps = append(steps, c19Step{Op: "shortcut", Sc: st.Sc, Cookie: "slot", Slot: g.Intn(2)})
 			}
 		}
+	}
+	if g.Bool(0.25) {
+		// targeted: a user record replaced by a PUT that leaves attributes out, then a login and an assertion
+		u := Pick(g, c19Users...)
+		ver += 2
+		steps = append(steps, c19Step{Op: "seed_user", User: u, Pw: "set", Ver: ver - 1}, c19Step{Op: "put_service", Svc: "s0", SP: 0},
+			c19Step{Op: "put_user", User: u, Pw: "", Ver: ver, Omit: Pick(g, "groups", "names", "groups+names")},
+			c19Step{Op: "login", User: u, Pw: "right"},
+			c19Step{Op: "sso", SP: 0, Cookie: "slot", Slot: -1, Bind: Pick(g, "redirect", "post")})
 	}
 	if g.Bool(0.3) {
 		// targeted: a fresh login, the clock moved to a chosen position around that session's expiry, then its cookie is used
@@ -523,6 +533,16 @@ func (w *c19World) step(st c19Step, res *Result) (expected, observed c19Outcome,
 	case "put_user":
 		a := c19AttrsFor(st.User, st.Ver)
 		body := map[string]any{"name": a.Name, "email": a.Email, "common_name": a.CN, "surname": a.SN, "given_name": a.GN, "groups": a.Groups}
+		if strings.Contains(st.Omit, "groups") {
+			delete(body, "groups")
+			a.Groups = nil
+		}
+		if strings.Contains(st.Omit, "names") {
+			delete(body, "common_name")
+			delete(body, "surname")
+			delete(body, "given_name")
+			a.CN, a.SN, a.GN = "", "", ""
+		}
 		u := mUser{A: a}
 		if old, ok := w.users[st.User]; ok {
 			u.HasPw, u.Pw = old.HasPw, old.Pw
@@ -876,6 +896,10 @@ func (w *c19World) findHash(rep *reply) string {
 func (w *c19World) classify(st c19Step, rep *reply) (c19Outcome, bool) {
 	well := rep.Code >= 100 && rep.Code <= 599
 	if rep.Code >= 400 {
+		// an error reply that also carries a login or response form is two replies glued into one
+		if strings.Contains(rep.Body, "<form") {
+			return c19Outcome{Class: "ERROR+FORM"}, false
+		}
 		return c19Outcome{Class: "ERROR"}, well
 	}
 	if rep.Code == 204 {
